@@ -307,12 +307,12 @@ func refEqual(x, y reflect.Value, um, root bool) bool {
 // DiffInfo describes the first structural difference between two values.
 type DiffInfo struct {
 	cur   []reflect.Type
-	Count int    // number of differing positions (leafs / nil-ness / len)
-	Path  string // path of the first
-	Type  string // static type at the first differing position
-	Kind  string // nilness-ptr, nil-vs-empty, nil-vs-nonempty, len, leaf-<kind>, float-zero-sign (bitwise only), keyset
-	Sign  int    // natural order of x vs y at that position (-1/+1), 0 when undefined (keyset)
-	Ctx   string // root, field, elem, mapval, ptr
+	Count int            // number of differing positions (leafs / nil-ness / len)
+	Path  string         // path of the first
+	Type  string         // static type at the first differing position
+	Kind  string         // nilness-ptr, nil-vs-empty, nil-vs-nonempty, len, leaf-<kind>, float-zero-sign (bitwise only), keyset
+	Sign  int            // natural order of x vs y at that position (-1/+1), 0 when undefined (keyset)
+	Ctx   string         // root, field, elem, mapval, ptr
 	TPath []reflect.Type // static types from the root down to the first differing position
 }
 
@@ -343,7 +343,6 @@ func Diff(x, y reflect.Value) DiffInfo {
 	diff(d, Addressable(x), Addressable(y), "", "root")
 	return *d
 }
-
 
 func (d *DiffInfo) note(path, typ, kind, ctx string, sign int) {
 	if d.Count == 0 {
